@@ -39,6 +39,7 @@ def natList (l : List Nat) : String := if l.isEmpty then "-" else ",".intercalat
 
 inductive Cmd where
   | op (o : Op)
+  | sdump
   | pure (model spec : String)
   | bad
 
@@ -88,6 +89,7 @@ def parseCmd (line : String) : Cmd :=
     | some s, some r, some sub, some bits, some sig => .op (.scontrib ⟨s, r % 65536, sub, bits, sig % 65536⟩)
     | _, _, _, _, _ => .bad
   | ["sreset", a] => match parseU64 a with | some s => .op (.sreset s) | none => .bad
+  | ["sdump"] => .sdump
   | ["select", a, b, c] =>
     match parseNat a, parseList b, parseMsgs c with
     | some root, some members, some msgs =>
@@ -120,9 +122,35 @@ def parseCmd (line : String) : Cmd :=
     | _, _ => .bad
   | _ => .bad
 
+def sortedSet (items : List String) : String :=
+  "{" ++ ",".intercalate (items.mergeSort (fun a b => decide (a ≤ b))) ++ "}"
+
+def renderMsg (m : SyncMsg) : String := s!"{m.slot.toNat}.{m.validator}.{m.root}"
+
+/-- the six buffers of the model, as the `verif` hook of /repo reports them -/
+def renderSyncModel (p : SyncPool) : String :=
+  let mb (b : MsgBuf) : String := if b.alloc then sortedSet (b.entries.map fun e => renderMsg e.2) else "-"
+  let cb (b : ContribBuf) : String :=
+    if b.alloc then
+      sortedSet (b.entries.flatMap fun r => r.2.entries.flatMap fun sn =>
+        sn.2.map fun c => s!"{r.1}.{sn.1}.{bitsHex c.bits}.{c.sig}")
+    else "-"
+  let keys := [p.prevMsgs, p.currentMsgs, p.nextMsgs].all fun b => b.entries.all fun e => e.1 = e.2.validator
+  s!"ok cur={p.currentSlot.toNat} m=[{mb p.prevMsgs}|{mb p.currentMsgs}|{mb p.nextMsgs}] " ++
+    s!"c=[{cb p.prevContribs}|{cb p.currentContribs}|{cb p.nextContribs}] keys={boolStr keys}"
+
+/-- what the specification says the buffers hold: the accepted items of slot cur−1, cur, cur+1 -/
+def renderSyncSpec (s : Spec.SyncSpec) : String :=
+  let mb (slot : UInt64) : String := sortedSet ((s.msgs.filter fun m => m.slot = slot).map renderMsg)
+  let cb (slot : UInt64) : String :=
+    sortedSet ((s.contribs.filter fun c => c.slot = slot).map fun c => s!"{c.root}.{c.subnet}.{bitsHex c.bits}.{c.sig}")
+  s!"ok cur={s.cur.toNat} m=[{mb (s.cur - 1)}|{mb s.cur}|{mb (s.cur + 1)}] " ++
+    s!"c=[{cb (s.cur - 1)}|{cb s.cur}|{cb (s.cur + 1)}] keys=true"
+
 def step (st : Pools × Spec.SPools) (line : String) : (Pools × Spec.SPools) × String :=
   match parseCmd line with
   | .bad => (st, "bad-op")
+  | .sdump => (st, renderSyncModel st.1.sync ++ " | " ++ renderSyncSpec st.2.sync)
   | .pure m s => (st, m ++ " | " ++ s)
   | .op o =>
     let (m', a) := st.1.step Cfg.fixed o
